@@ -22,6 +22,7 @@ type Surface struct {
 	HasClient        bool
 	ClientHasSec     bool
 	HandlerMethods   []Method
+	WebhookMethods   []Method // methods of WebhookHandler (OpenAPI 3.1 webhooks)
 	SecSourceMethods []Method
 	TypeNames        []string // exported non-interface named types
 }
@@ -163,6 +164,10 @@ func InspectDir(dir, pkg string) (*Surface, error) {
 									s.NewErrorType = m.ResType[0]
 								}
 							}
+						}
+					case "WebhookHandler":
+						if isIface {
+							s.WebhookMethods = methodsOf(it)
 						}
 					case "SecuritySource":
 						if isIface {
